@@ -34,6 +34,12 @@ Line ==
               [] e.op = "sendfail" -> AppSendFail(e.s) /\ e.intact = TRUE /\ e.now = e.s
               [] OTHER -> FALSE)
        [] e.k = "pool" -> NewIsEmpty(e.sz, e.len, e.cap, e.hl) /\ UNCHANGED vars
+       \* MakeUnique of a shared message with the other holder releasing, allocating and writing at the moment the copy
+       \* starts: the copy has the original bytes and is nobody else's message
+       [] e.k = "mu" -> e.intact = TRUE /\ e.alias = FALSE /\ UNCHANGED vars
+       \* two holders releasing a shared message at the same moment: released once (the allocations that follow are
+       \* never the same message)
+       [] e.k = "poolrace" -> e.aliased = 0 /\ UNCHANGED vars
        [] OTHER -> FALSE
 TSpec == TInit /\ [][Line]_<<vars, l>>
 TConstraint == RefPositive /\ ReleasedDead /\ AppOwnsAlone /\ ExtraOnApp /\ Progress(l)
